@@ -92,9 +92,11 @@ def run(ctx):
             n = rng.choice([1, 3, 10, 47, 48, 49, 50, 51, 60, 120, 320, 400]) if rep == 0 else rng.randrange(1, 130)
             comp = (vi + rep) % 2 == 1
             end = rng.choice(['none', 'disc-closed', 'disc-open'])
-            if end == 'disc-closed' and n > 40:
-                # a peer that has closed while >1 batch is still unread makes the client's own writes fail
-                # before it ever reads the disconnect packet (EPIPE): outside the property's clause
+            if end == 'disc-closed' and n > 90:
+                # a peer that has closed while more than TWO batches are still unread makes the client's own writes fail
+                # and the error surface before it ever reads the disconnect packet: outside the property's clause.  With at
+                # most two batches the write error of the second pass is still pending when the disconnect packet is read in
+                # that pass, and is dropped ("may have been caused by trying to write to the closed socket")
                 end = 'disc-open'
             evs, script = [], []
             for _ in range(n):
@@ -148,6 +150,10 @@ def run(ctx):
                                         start=sb.login.LoginStartPacket.get_id(cx))
             calls = []
             with simnet.Net(lambda s: RefServer(s, cfg)) as net:
+                # a write to a peer that has closed fails with EPIPE or, when the peer's RST has arrived, ECONNRESET
+                net.reset_by_peer = end == 'disc-closed' and rng.random() < 0.5
+                if net.reset_by_peer:
+                    ctx.count('end.disc-closed.econnreset')
                 conn = C.Connection('h', 1, username='u', allowed_versions={v},
                                     handle_exception=lambda e, i: calls.append(('exc', repr(e))),
                                     handle_exit=lambda: calls.append(('exit',)))
@@ -202,9 +208,14 @@ def run(ctx):
             got = 'ok wire=%s delivered=%d spawned=%d closed=%d exit=%d errors=%d' % (
                 ','.join(wire) or '-', nplay + pads, bool(spawned), closed, calls.count(('exit',)),
                 len([c for c in calls if c[0] == 'exc']))
-            lines.append('play.run newer=%d capw=300 capr=50 peer=%d %s %s' % (
-                newer, 0 if end == 'disc-closed' else 1, ' '.join(['ot'] * pads), ' '.join(evs)))
-            impl.append(got)
+            if not (end == 'disc-closed' and n > 40):
+                # (the model's closed peer closes AT the disconnect packet; the stand-in server has closed before the client
+                # writes anything of its second batch -- those histories are judged by the oracle below only)
+                lines.append('play.run newer=%d capw=300 capr=50 peer=%d %s %s' % (
+                    newer, 0 if end == 'disc-closed' else 1, ' '.join(['ot'] * pads), ' '.join(evs)))
+                impl.append(got)
+            else:
+                ctx.count('end.disc-closed.two-batches')
             ctx.case((v, comp, tuple(evs)), sample={'version': v, 'compression': comp, 'events': len(evs),
                                                     'end': end, 'impl': got[:120]})
             ctx.count('v.%s' % ('release' if I['independent'] else 'snapshot'))
